@@ -257,20 +257,28 @@ Delay2(mm, isJoin) == Rx2Delay(mm, isJoin)
 
 NbErrState(e, s) == Chk("nb response", "ErrState", e.resp.k) /\ Chk("nb state error", s, e.resp.s)
 
-\* KNOWN FINDING (open): channel selection panics or never returns when the current data rate has
-\* no defined+enabled channel (DESIGN 9, S3/S4/S27).  The history ends there.
+\* A transmission is possible from this state: for a data uplink some channel is defined, enabled and usable with
+\* the data rate in force (C04 / C09: when none is, send() must say so - it cannot transmit legally and must not
+\* search for ever); for a join request the data rate in force is one the region defines.
 CanTx(mm, isJoin) ==
     IF isJoin THEN TxChoices(mm, TRUE) # {} ELSE CanTransmitData(mm.region, mm.plan, mm.cfg.dr)
+\* KNOWN FINDING (open, the remainder of S3): a join request while the configured data rate is one the region does
+\* not define (the application's set_datarate accepts any value) panics in the dynamic plans.  The history ends there.
 StuckKnown(mm, isJoin, e) ==
-    e.resp.k \in {"Hang", "Panic"} /\ e.calls = <<>> /\ ~CanTx(mm, isJoin) /\ IsAllowed("no-usable-channel")
+    isJoin /\ e.resp.k \in {"Hang", "Panic"} /\ e.calls = <<>> /\ ~CanTx(mm, TRUE) /\ IsAllowed("join-undefined-datarate-panic")
 
-\* KNOWN FINDING (open, S15): send() with application data on port 0, or with a payload that does not fit a
-\* 255-byte frame, ends in panic! instead of an error.
-MisuseKnown(mm, e) ==
-    /\ e.resp.k = "Panic" /\ e.calls = <<>> /\ e.args.kind = "send" /\ Joined(mm)
+\* send() with application data on port 0 (reserved for MAC commands), or with a payload that does not fit a
+\* 255-byte frame next to the queued MAC answers: no frame can be built, the call is refused and changes nothing
+Misuse(mm, e) ==
+    /\ e.args.kind = "send" /\ Joined(mm)
     /\ \/ (e.args.port = 0 /\ Len(e.args.data) > 0)
        \/ 13 + (IF e.args.port = 0 THEN 0 ELSE Len(mm.sess.pending)) + Len(e.args.data) >= 256
-    /\ IsAllowed("send-misuse-panic")
+\* a send() that cannot go ahead (misuse, or no usable channel): refused with an error, no radio call, nothing changes
+Refused(mm, m1, isJoin, e) == ~isJoin /\ (Misuse(mm, e) \/ ~CanTx(m1, FALSE))
+RefusedOk(mm, m1, e, what) ==
+    /\ Chk(<<what, IF Misuse(mm, e) THEN "C04 send() misuse is refused with an error" ELSE "C04/C09 no usable channel: send() is refused with an error",
+             mm.region, m1.cfg.dr>>, "ErrMac", e.resp.k)
+    /\ Chk(<<what, "no radio call">>, <<>>, e.calls)
 
 \* join / send request in Idle
 NbRequest(e) ==
@@ -289,9 +297,9 @@ NbRequest(e) ==
           m1 == IF isJoin THEN AfterJoinReq(m, devNonce, a.appkey) ELSE AfterSendPrepare(m, a.confirmed = 1)
       IN
       IF StuckKnown(m1, isJoin, e) THEN
-         /\ Known("no-usable-channel", <<m.region, e.resp.k, m1.cfg.dr>>) /\ m' = m1 /\ UNCHANGED fe
-      ELSE IF MisuseKnown(m, e) THEN
-         /\ Known("send-misuse-panic", <<e.args.port, Len(e.args.data)>>) /\ m' = m1 /\ UNCHANGED fe
+         /\ Known("join-undefined-datarate-panic", <<m.region, e.resp.k, m1.cfg.dr>>) /\ m' = m1 /\ UNCHANGED fe
+      ELSE IF Refused(m, m1, isJoin, e) THEN
+         /\ RefusedOk(m, m1, e, "nb") /\ UNCHANGED <<m, fe>> /\ SnapOk(m, e)
       ELSE
          /\ Chk("nb one tx call", 1, Len(e.calls))
          /\ LET c == e.calls[1] IN
@@ -560,9 +568,9 @@ EvAProc(e) ==
           sF == AFinal(s1)
       IN
       IF StuckKnown(m1, isJoin, e) THEN
-         /\ Known("no-usable-channel", <<m.region, e.resp.k, m1.cfg.dr>>) /\ m' = m1 /\ UNCHANGED fe
-      ELSE IF MisuseKnown(m, e) THEN
-         /\ Known("send-misuse-panic", <<e.args.port, Len(e.args.data)>>) /\ m' = m1 /\ UNCHANGED fe
+         /\ Known("join-undefined-datarate-panic", <<m.region, e.resp.k, m1.cfg.dr>>) /\ m' = m1 /\ UNCHANGED fe
+      ELSE IF Refused(m, m1, isJoin, e) THEN
+         /\ RefusedOk(m, m1, e, "async") /\ UNCHANGED <<m, fe>> /\ SnapOk(m, e)
       ELSE
          /\ s1.ok
          /\ ChkT(<<"async: all calls consumed", s1.i - 1, Len(e.calls)>>, s1.i - 1 = Len(e.calls))
